@@ -281,14 +281,17 @@ ListClauses(W, S, ev) ==
 
 \* object lists: clear() followed by appending the same number of FRESH objects - every path below the list
 \* starts over from its class initial state (values, rand_mode, constraint_mode)
-UnderList(x, l) == \E i \in 0..8 : LET pre == ElemPath(l, i) IN
-                      x = pre \/ (Len(x) > Len(pre) /\ SubSeq(x, 1, Len(pre) + 1) = pre \o ".")
+UnderElems(x, l, I) == \E i \in I : LET pre == ElemPath(l, i) IN
+                          x = pre \/ (Len(x) > Len(pre) /\ SubSeq(x, 1, Len(pre) + 1) = pre \o ".")
+UnderList(x, l) == UnderElems(x, l, 0..8)
+\* ol_refill replaces every element, ol_setitem (lst[i] = fresh object) the element at ev.i only
+OlIdx(ev) == IF ev.op = "ol_setitem" THEN {ev.i} ELSE 0..8
 OlRefillEffect(W, S, ev) ==
   LET l == ev.p
-      sc == {x \in DOMAIN W.scalars : UnderList(x, l)}
-      ob == {x \in DOMAIN W.objs : UnderList(x, l)}
+      sc == {x \in DOMAIN W.scalars : UnderElems(x, l, OlIdx(ev))}
+      ob == {x \in DOMAIN W.objs : UnderElems(x, l, OlIdx(ev))}
       ck == UNION {{CKey(o, b) : b \in BlockNames(W, W.objs[o].cls)} : o \in ob}
-      ls == {x \in DOMAIN W.lists : x # l /\ UnderList(x, l) /\ ~W.lists[x].isobj}     \* scalar lists owned by the elements
+      ls == {x \in DOMAIN W.lists : x # l /\ UnderElems(x, l, OlIdx(ev)) /\ ~W.lists[x].isobj}     \* scalar lists owned by the elements
       oldEl == UNION {{ElemPath(x, i - 1) : i \in 1..S.sz[x]} : x \in ls}
       newEl == UNION {{ElemPath(x, i - 1) : i \in 1..Len(W.lists[x].init)} : x \in ls}
       initOf(p) == LET x == CHOOSE y \in ls : \E i \in 1..Len(W.lists[y].init) : ElemPath(y, i - 1) = p
@@ -530,7 +533,7 @@ Clauses(W, S, ev) ==
     [] ev.op = "cmode"     -> CModeClauses(W, S, ev)
     [] ev.op \in {"rl_clear", "rl_extend", "rl_append"} -> RlClauses(W, S, ev)
     [] ev.op \in {"l_append", "l_extend", "l_assign", "l_clear", "l_setitem"} -> ListClauses(W, S, ev)
-    [] ev.op = "ol_refill" -> OlRefillClauses(W, S, ev)
+    [] ev.op \in {"ol_refill", "ol_setitem"} -> OlRefillClauses(W, S, ev)
     [] ev.op = "call"      -> CallClauses(W, S, ev)
     [] ev.op = "probe"     -> ProbeClauses(W, S, ev)
     [] ev.op = "explore"   -> ExploreClauses(W, S, ev)
@@ -543,7 +546,7 @@ Effect(W, S, ev) ==
     [] ev.op = "cmode"     -> CModeEffect(W, S, ev)
     [] ev.op \in {"rl_clear", "rl_extend", "rl_append"} -> RlEffect(W, S, ev)
     [] ev.op \in {"l_append", "l_extend", "l_assign", "l_clear", "l_setitem"} -> ListEffect(W, S, ev)
-    [] ev.op = "ol_refill" -> OlRefillEffect(W, S, ev)
+    [] ev.op \in {"ol_refill", "ol_setitem"} -> OlRefillEffect(W, S, ev)
     [] ev.op = "call"      -> CallEffect(W, S, ev)
     [] ev.op = "probe"     -> S
     [] ev.op = "explore"   -> ExploreEffect(W, S, ev)
